@@ -295,15 +295,19 @@ pub fn c14(rng: &mut Rng, thorough: bool, idx: u64) -> Spec {
         old.set("autoreload", 200);
     }
     let variant = if idx % 2 == 0 {
-        *rng.pick(&["unchanged", "add_pool", "remove_pool", "change_servers", "change_general", "add_pool_server_down"])
+        *rng.pick(&["unchanged", "add_pool", "remove_pool", "change_servers", "change_general", "add_pool_server_down", "swap_roles"])
     } else {
-        *rng.pick(&["syntax", "semantic_role", "semantic_two_primaries", "semantic_min_pool", "semantic_default_shard", "semantic_shard_id", "semantic_dup_server", "missing", "readerror", "truncated"])
+        *rng.pick(&["syntax", "semantic_role", "semantic_role_capitalised", "semantic_two_primaries", "semantic_min_pool", "semantic_default_shard", "semantic_shard_id", "semantic_dup_server", "missing", "readerror", "truncated"])
     };
     // (a pool whose server is down while it is being built makes the reload itself take seconds;
     // overlapping it with timer- or signal-driven reloads only blurs what "acknowledged" means)
     let trigger = if variant == "add_pool_server_down" { "RELOAD" } else { trigger };
     if variant == "add_pool_server_down" {
         old.general.remove("autoreload");
+    }
+    if variant == "swap_roles" {
+        // a promotion written the usual way: the roles of the two servers edited in place
+        old.pools[0] = pool_on("db", &["pg-db-p", "pg-db-r"], 3, "transaction");
     }
     let mut new = old.clone();
     let mut new_text: Option<String> = None;
@@ -330,6 +334,14 @@ pub fn c14(rng: &mut Rng, thorough: bool, idx: u64) -> Spec {
         }
         "change_general" => {
             new.set("ban_time", 77);
+        }
+        "swap_roles" => {
+            new.pools[0].shards[0].servers[0].2 = "replica".into();
+            new.pools[0].shards[0].servers[1].2 = "primary".into();
+        }
+        "semantic_role_capitalised" => {
+            // (if a pooler takes this spelling as valid it must then also serve it; PgCat refuses it)
+            new.pools[0].default_role = rng.pick(&["Primary", "ANY", "Replica"]).to_string();
         }
         "syntax" => new_text = Some(format!("{}\n[pools.db\nthis is = not toml ===\n", new.render())),
         "semantic_role" => {
@@ -497,6 +509,25 @@ pub fn c14(rng: &mut Rng, thorough: bool, idx: u64) -> Spec {
     c4.role = "probe".into();
     let db2_late_client = id;
     clients.push(c4);
+    // and one that asks pool db for each role after the reload
+    id += 1;
+    let mut p = Prog::new(id);
+    for role in ["primary", "replica", "primary"] {
+        p.steps.push(q(format!("SET SERVER ROLE TO '{}'", role), 0));
+        for _ in 0..2 {
+            p.new_txn();
+            let s = p.select(1, 0, "");
+            p.simple(s);
+        }
+    }
+    p.steps.push(Step::Terminate);
+    let mut c5 = client(id, "app", "db", "apppw", 0, p.steps);
+    c5.start = When::After { ev: "reloaded".into(), delay_ms: rng.range(5, 50) };
+    c5.role = "probe".into();
+    let db_role_client = id;
+    if old.pools[0].shards[0].servers.len() == 2 {
+        clients.push(c5);
+    }
 
     let net = if rng.chance(0.5) { net_calm() } else { NetSpec { latency_ms: (0, *rng.pick(&[0u64, 1, 2])), ..net_swarm(rng) } };
     let mut spec = Spec { config_toml: old.render(), hosts, net, clients, actions, end: EndSpec { deadline_ms: 900_000, calm_ms: 100 }, ..Default::default() };
@@ -515,6 +546,7 @@ pub fn c14(rng: &mut Rng, thorough: bool, idx: u64) -> Spec {
     spec.params.insert("trigger".into(), serde_json::json!(trigger));
     spec.params.insert("db3_client".into(), serde_json::json!(db3_client));
     spec.params.insert("db2_late_client".into(), serde_json::json!(db2_late_client));
+    spec.params.insert("db_role_client".into(), serde_json::json!(db_role_client));
     if rng.chance(0.5) {
         spec.yield_sites.push(("pool.from_config.before_store".into(), 3));
     }
